@@ -17,7 +17,7 @@ PROPS['C04'] = dict(
         dict(name='random', variant='asan', harness='c04_voices.cpp', quick=3000, thorough=60000, opts=dict(mode='c04')),
         dict(name='exhaustive-d4', variant='asan', harness='c04_voices.cpp', quick=160000, thorough=160000, opts=dict(mode='c04', depth=4)),
         dict(name='exhaustive-d5', variant='asan', harness='c04_voices.cpp', quick=0, thorough=3200000, opts=dict(mode='c04', depth=5)),
-        dict(name='memcheck', variant='plain-d', harness='c04_voices.cpp', quick=300, thorough=6000, budget=1200, wall=3000, opts=dict(mode='c04'), **{'as': 'random'},
+        dict(name='memcheck', variant='plain-d', harness='c04_voices.cpp', quick=300, thorough=6000, budget=150, wall=2400, opts=dict(mode='c04'), **{'as': 'random'},
              wrapper=['valgrind', '-q', '--error-exitcode=79', '--exit-on-first-error=yes', '--track-origins=no', '--leak-check=no']),
     ],
 )
